@@ -5,3 +5,7 @@ for _p in ('C01', 'C02', 'C03', 'C04'):
 
 from . import check_c20
 REG['C20'] = check_c20.run
+
+from . import check_sinks
+REG['C13'] = check_sinks.run
+REG['C14'] = check_sinks.run
